@@ -51,6 +51,8 @@ CLASSES = {
     'update-attrlen-overrun': (('established',), {(3, 1)}),
     'update-withdrawn-overrun': (('established',), {(3, 1)}),
     'update-nlri-prefixlen': (('established',), {(3, 10)}),
+    # RFC 7313 5: a ROUTE-REFRESH with an unknown subtype is ignored, whatever kind of refresh was negotiated: no NOTIFICATION is defined for it
+    'refresh-unknown-subtype': (('established',), 'ignored'),
     'hold-expiry': (('established',), {(4, 0)}),
     'openwait-expiry': (('await-open',), {(5, 1)}),
     'teardown': (('established',), 'cease'),
@@ -119,6 +121,7 @@ def generate(rng, tier: str, index: int) -> dict:
         'openwait': rng.choice([3, 5, 8]), 'sessions': sessions,
         # 'peer-only': the peer announces Extended Message, ExaBGP is configured not to: the limit stays 4096 (RFC 8654 4)
         'extmsg': rng.choice(['none', 'none', 'peer-only']),
+        'enh_refresh': rng.chance(0.5),  # the peer announces Enhanced Route Refresh or only the plain one
     }  # fmt: skip
 
 
@@ -169,6 +172,8 @@ def injection(spec: dict, spk: Speaker, sess, plan) -> bytes | None:
         return R.route_refresh(1, 1)
     if cls == 'unexpected-open':
         return ok_open()
+    if cls == 'refresh-unknown-subtype':
+        return R.message(R.ROUTE_REFRESH, bytes([0, 1, [3, 4, 100, 255, 128][a % 5], 1]))
     if cls == 'update-attrlen-overrun':
         attrs = R.attribute(R.A_ORIGIN, b'\x00') + bytes([0x40, 2, 200, 2, 1])  # AS_PATH claims 200 bytes
         return R.build_update(attrs=attrs, nlri=bytes([24, 10, 1, 1]))
@@ -201,7 +206,7 @@ def execute(plan: dict) -> dict:
         'families': [(1, 1)], 'caps': {'route-refresh': True, 'extended-message': False} if plan.get('extmsg') == 'peer-only' else {'route-refresh': True}, 'api': {'processes': ['h1']},
         'static': ['route 192.0.2.0/24 next-hop self'],
     }  # fmt: skip
-    spk = Speaker(w, 'p1', PEER, peer_as, PEER, LOCAL, hold=plan['hold'], caps=speaker_caps({'asn': peer_as, 'extmsg': plan.get('extmsg') == 'peer-only'}))
+    spk = Speaker(w, 'p1', PEER, peer_as, PEER, LOCAL, hold=plan['hold'], caps=speaker_caps({'asn': peer_as, 'extmsg': plan.get('extmsg') == 'peer-only', 'enh_refresh': bool(plan.get('enh_refresh'))}))
     w.boot(config_text([{'name': 'h1'}], [neighbor]))
     h = w.procs.helper('h1')
     queue = list(plan['sessions'])
@@ -352,6 +357,8 @@ def judge(w, rec, probes):
             return viol('C10/closed-without-notification', f'{where}: exabgp closed the session without any NOTIFICATION (expected {expected})', cls=cls, state=state)
         return None
     ok = False
+    if expected == 'ignored':
+        return viol('C10/wrong-notification', f'{where}: a message the RFCs ask to ignore was answered with NOTIFICATION {got}', cls=cls, state=state, got=f'{got[0]}/{got[1]}')
     if expected == 'code2':
         ok = got[0] == 2
     elif expected == 'cease':
